@@ -12,50 +12,82 @@ def run(ck):
     q = ck.quick(); rng = ck.rng
     prms = gc.PARAMS_QUICK + ([] if q else gc.PARAMS_MORE)
     fails, corr = [], []; nprobe = 0; samples = []; tables = []
-    for prm in prms:
-        ref_bars = None
-        for inb, depth in gc.VARIANTS:
-            wb = inb // 8; hd = gc.head(inb, depth, prm)
+    import bisect
+    def probe_table(prm, inb, depth, full=False, d0=None):
+        """dump the table of one sampler, probe it around its barriers through the real sampler, compare with the barrier count and the model"""
+        nonlocal nprobe
+        wb = inb // 8; hd = gc.head(inb, depth, prm)
+        if d0 is None:
             r, o, e = gc.run_lines(exe, ["g %s 0 T -" % hd])[0]
             if r != 0 or not o:
-                fails.append(("construction", "g %s 0 T -" % hd, "rc=%d %s" % (r, e[-300:]))); continue
+                fails.append(("construction", "g %s 0 T -" % hd, "rc=%d %s" % (r, e[-300:]))); return
+            d0 = gc.parse(o)
+        wp = d0["wp"]; P = wp * inb
+        bints = [int(h, 16) for h in d0["barriers"]]
+        tables.append({"params": hd, "wp": wp, "barriers": d0["nb"], "vmin": d0["vmin"], "flags": [d0["f1"], d0["f2"]], "last_barrier": hex(bints[-1])[-8:]})
+        # the table as data: sorted (non-decreasing: far-tail values whose mass is below 2^-P legitimately share a barrier), last barrier 2^P-1 or 2^P-2
+        if any(a > b for a, b in zip(bints, bints[1:])): fails.append(("barrier table", hd, "barriers are not sorted"))
+        if bints[-1] not in ((1 << P) - 1, (1 << P) - 2): fails.append(("barrier table", hd, "last barrier %x is not 2^P-1 / 2^P-2" % bints[-1]))
+        # probes: every (sampled) barrier and its neighbours, cell boundaries of the first two words, extremes, random
+        idx = range(len(bints)) if (full or not q or len(bints) <= 90) else sorted(set(list(range(12)) + list(range(len(bints) - 12, len(bints))) + list(range(len(bints) // 2 - 10, len(bints) // 2 + 10)) + [rng.randrange(len(bints)) for _ in range(25)]))
+        strs = [0, (1 << P) - 1, (1 << P) - 2, 1]
+        for i in idx: strs += [max(0, bints[i] - 1), bints[i], min((1 << P) - 1, bints[i] + 1)]
+        for i in idx[:: max(1, len(idx) // 24)]:
+            top = bints[i] >> (P - inb); strs += [top << (P - inb), ((top + 1) << (P - inb)) - 1, (bints[i] >> (P - 2 * inb)) << (P - 2 * inb), (((bints[i] >> (P - 2 * inb)) + 1) << (P - 2 * inb)) - 1]
+        # midpoints between consecutive barriers (a cell chained to the wrong barrier list shows between two barriers, not next to one)
+        for i in idx:
+            if i + 1 < len(bints): strs.append((bints[i] + bints[i + 1]) // 2)
+        strs += [rng.randrange(1 << P) for _ in range(40)]
+        strs = [s_ for s_ in strs if 0 <= s_ < (1 << P)]
+        def words(s_): return [(s_ >> (inb * (wp - 1 - j))) & ((1 << inb) - 1) for j in range(wp)]
+        tape = [w for s_ in strs for w in words(s_) + [0] * wp]     # each one-sample request refills once after its output
+        r, o, e = gc.run_lines(exe, ["p %s %d T %s" % (hd, len(strs), gc.words_hex(tape, wb))])[0]
+        if r != 0 or not o:
+            fails.append(("probe run", "p %s %d ..." % (hd, len(strs)), "rc=%d %s" % (r, " ".join(e.split())[-300:]))); return
+        d = gc.parse(o); nprobe += len(strs)
+        if d["exhausted"] or len(d["out"]) != len(strs): fails.append(("probe run", hd, "outputs %d for %d probes, exhausted=%s" % (len(d["out"]), len(strs), d["exhausted"]))); return
+        for s_, got in zip(strs, d["out"]):
+            want = d0["vmin"] + bisect.bisect_right(bints, s_)
+            if got != want: fails.append(("fast path vs full comparison", "p %s 1 T %s" % (hd, gc.words_hex(words(s_), wb)), "input string %x decoded to %d, barrier count gives %d" % (s_, got, want)))
+        # the same probes through the extracted model: one line per probe string (a one-sample request over a wp-word buffer)
+        sub = list(zip(strs, d["out"]))
+        if q and len(sub) > 120: sub = sub[:40] + sub[-40:] + rng.sample(sub[40:-40], 40)
+        mlines = ["gn %d %d %d %d 1 %d B %s T %s" % (depth, wp, d0["vmin"], wp, wb, ",".join(d0["barriers"]), gc.words_hex(words(s_) + [0] * wp, wb)) for s_, _ in sub]
+        rc, mout, merr = vf.run_io([model, "gauss"], "\n".join(mlines) + "\n", timeout=900)
+        if rc != 0: raise RuntimeError("model runner failed: " + merr[-300:])
+        for (s_, got), mo in zip(sub, mout.rstrip("\n").split("\n")):
+            mv = mo.split("#")[0].split("|")[0].split()
+            if not mv or int(mv[0]) != got: corr.append(("p %s 1 T %s" % (hd, gc.words_hex(words(s_), wb)), got, mv[:1]))
+        samples.append("p %s %d T <%d strings of %d words>" % (hd, len(strs), len(strs), wp))
+    for prm in prms:
+        for inb, depth in gc.VARIANTS: probe_table(prm, inb, depth)
+    # ---- table-shape sweep: the lookup tables depend on how consecutive barriers share their first / second index word.  Dump the
+    # barriers for a grid of sigmas, classify the shapes that occur, and probe tables exhibiting each shape (all barriers, midpoints)
+    grid = [(round(0.45 + 0.07 * i, 2), 128, 1024, "0", "d") for i in range(80 if q else 160)]
+    shapes = {}
+    for inb, depth in ((8, 2), (16, 2), (8, 1)):
+        res = gc.run_lines(exe, ["g %s 0 T -" % gc.head(inb, depth, g_) for g_ in grid])
+        for g_, (r, o, e) in zip(grid, res):
+            if r != 0 or not o: fails.append(("construction", "g %s 0 T -" % gc.head(inb, depth, g_), "rc=%d %s" % (r, e[-300:]))); continue
             d0 = gc.parse(o); wp = d0["wp"]; P = wp * inb
             bints = [int(h, 16) for h in d0["barriers"]]
-            tables.append({"params": hd, "wp": wp, "barriers": d0["nb"], "vmin": d0["vmin"], "flags": [d0["f1"], d0["f2"]], "last_barrier": hex(bints[-1])[-8:]})
-            # the table as data: strictly increasing, last barrier 2^P-1 or 2^P-2
-            if any(a >= b for a, b in zip(bints, bints[1:])): fails.append(("barrier table", hd, "barriers are not strictly increasing"))
-            if bints[-1] not in ((1 << P) - 1, (1 << P) - 2): fails.append(("barrier table", hd, "last barrier %x is not 2^P-1 / 2^P-2" % bints[-1]))
-            # probes: every (sampled) barrier and its neighbours, cell boundaries of the first two words, extremes, random
-            idx = range(len(bints)) if (not q or len(bints) <= 90) else sorted(set(list(range(12)) + list(range(len(bints) - 12, len(bints))) + list(range(len(bints) // 2 - 10, len(bints) // 2 + 10)) + [rng.randrange(len(bints)) for _ in range(25)]))
-            strs = [0, (1 << P) - 1, (1 << P) - 2, 1]
-            for i in idx: strs += [max(0, bints[i] - 1), bints[i], min((1 << P) - 1, bints[i] + 1)]
-            for i in idx[:: max(1, len(idx) // 24)]:
-                top = bints[i] >> (P - inb); strs += [top << (P - inb), ((top + 1) << (P - inb)) - 1, (bints[i] >> (P - 2 * inb)) << (P - 2 * inb), (((bints[i] >> (P - 2 * inb)) + 1) << (P - 2 * inb)) - 1]
-            strs += [rng.randrange(1 << P) for _ in range(40)]
-            strs = [s_ for s_ in strs if 0 <= s_ < (1 << P)]
-            def words(s_): return [(s_ >> (inb * (wp - 1 - j))) & ((1 << inb) - 1) for j in range(wp)]
-            tape = [w for s_ in strs for w in words(s_) + [0] * wp]     # each one-sample request refills once after its output
-            r, o, e = gc.run_lines(exe, ["p %s %d T %s" % (hd, len(strs), gc.words_hex(tape, wb))])[0]
-            if r != 0 or not o:
-                fails.append(("probe run", "p %s %d ..." % (hd, len(strs)), "rc=%d %s" % (r, " ".join(e.split())[-300:]))); continue
-            d = gc.parse(o); nprobe += len(strs)
-            if d["exhausted"] or len(d["out"]) != len(strs): fails.append(("probe run", hd, "outputs %d for %d probes, exhausted=%s" % (len(d["out"]), len(strs), d["exhausted"]))); continue
-            import bisect
-            for s_, got in zip(strs, d["out"]):
-                want = d0["vmin"] + bisect.bisect_right(bints, s_)
-                if got != want: fails.append(("fast path vs full comparison", "p %s 1 T %s" % (hd, gc.words_hex(words(s_), wb)), "input string %x decoded to %d, barrier count gives %d" % (s_, got, want)))
-            # the same probes through the extracted model: one line per probe string (a one-sample request over a wp-word buffer)
-            sub = list(zip(strs, d["out"]))
-            if q and len(sub) > 120: sub = sub[:40] + sub[-40:] + rng.sample(sub[40:-40], 40)
-            mlines = ["gn %d %d %d %d 1 %d B %s T %s" % (depth, wp, d0["vmin"], wp, wb, ",".join(d0["barriers"]), gc.words_hex(words(s_) + [0] * wp, wb)) for s_, _ in sub]
-            rc, mout, merr = vf.run_io([model, "gauss"], "\n".join(mlines) + "\n", timeout=900)
-            if rc != 0: raise RuntimeError("model runner failed: " + merr[-300:])
-            for (s_, got), mo in zip(sub, mout.rstrip("\n").split("\n")):
-                mv = mo.split("#")[0].split("|")[0].split()
-                if not mv or int(mv[0]) != got: corr.append(("p %s 1 T %s" % (hd, gc.words_hex(words(s_), wb)), got, mv[:1]))
-            samples.append("p %s %d T <%d strings of %d words>" % (hd, len(strs), len(strs), wp))
-            # all four table layouts must realise the same step function when the precision is the same
-            if ref_bars is None: ref_bars = (P, bints, d0["vmin"])
+            w1 = [b >> (P - inb) for b in bints]; w2 = [(b >> (P - 2 * inb)) & ((1 << inb) - 1) for b in bints]
+            for a in range(len(bints) - 1):
+                if w1[a] != w1[a + 1] and w2[a] == w2[a + 1]: sh = "next barrier: other first word, same second word"
+                elif w1[a] == w1[a + 1] and w2[a] == w2[a + 1]: sh = "two barriers in one second-level cell"
+                elif w1[a] == w1[a + 1]: sh = "two barriers in one first-level cell"
+                else: continue
+                shapes.setdefault((inb, depth, sh), []).append((g_, d0))
+    done = set(); nshape = 0
+    for key in sorted(shapes):
+        inb, depth, sh = key
+        cands = shapes[key]
+        for g_, d0 in [cands[0], cands[len(cands) // 2], cands[-1]][: (2 if q else 3)]:
+            if (inb, depth, g_) in done: continue
+            done.add((inb, depth, g_)); nshape += 1
+            probe_table(g_, inb, depth, full=True, d0=d0)
+    ck.cov["table_shapes"] = {"%d/%d %s" % k: len(v) for k, v in shapes.items()}
+    ck.stream("table-shape sweep: %d sigmas x 3 layouts dumped, tables probed per shape of neighbouring barriers" % len(grid), max(1, nshape))
     # ---- numeric total-variation evaluation (mpmath, >= 1200 bits) of the dumped tables: supporting evidence / search, NOT a proof
     import json, os
     tvs = []
